@@ -45,7 +45,7 @@ import (
 
 func c12cases(tier string) int {
 	if tier == "thorough" {
-		return 300
+		return 240
 	}
 	return 96
 }
@@ -414,7 +414,7 @@ func init() {
 		},
 		Cases:        c12cases,
 		Batch:        4,
-		BatchTimeout: 20 * time.Minute,
+		BatchTimeout: 60 * time.Minute,
 		Run:          c12run,
 		Need:         []string{"queries_limited", "queries_first", "queries_last", "rows_compared", "limit_cuts_result", "limit_not_binding", "histories_with_big_gap", "queries_huge_limit"},
 	})
